@@ -63,3 +63,24 @@ pub fn client(builder: ClientBuilder) -> (Client, ServerSide) {
     let client = builder.build_with_tokio(MemSender(c2s_tx), MemReceiver(s2c_rx));
     (client, ServerSide { from_client: c2s_rx, to_client: s2c_tx })
 }
+
+/// a sender the test can stall: `send` waits while the test holds the write half of the gate
+pub struct GatedSender {
+    pub tx: mpsc::UnboundedSender<String>,
+    pub gate: std::sync::Arc<tokio::sync::RwLock<()>>,
+}
+impl TransportSenderT for GatedSender {
+    type Error = Closed;
+    async fn send(&mut self, msg: String) -> Result<(), Closed> {
+        let _g = self.gate.read().await;
+        self.tx.send(msg).map_err(|_| Closed)
+    }
+}
+
+pub fn gated_client(builder: ClientBuilder) -> (Client, ServerSide, std::sync::Arc<tokio::sync::RwLock<()>>) {
+    let (c2s_tx, c2s_rx) = mpsc::unbounded_channel();
+    let (s2c_tx, s2c_rx) = mpsc::unbounded_channel();
+    let gate = std::sync::Arc::new(tokio::sync::RwLock::new(()));
+    let client = builder.build_with_tokio(GatedSender { tx: c2s_tx, gate: gate.clone() }, MemReceiver(s2c_rx));
+    (client, ServerSide { from_client: c2s_rx, to_client: s2c_tx }, gate)
+}
